@@ -76,6 +76,8 @@ pub enum Op {
     Finish,
     /// "process restart": drop every handle, reopen the durable image with new_append
     Append,
+    /// n empty Stored entries named {prefix}{i} (entry-count thresholds without megabytes of JSON)
+    Many { n: u32, prefix: String },
 }
 
 impl Op {
@@ -94,6 +96,7 @@ impl Op {
             Op::Flush => "Flush",
             Op::Finish => "Finish",
             Op::Append => "Append",
+            Op::Many { .. } => "Many",
         }
     }
 }
@@ -328,6 +331,19 @@ pub fn run_program(ops: &[Op], env: &ExecEnv) -> ExecOut {
                     Ok(()) => Res::Ok(0),
                     Err(e) => Res::Err(e),
                 }
+            }
+            Op::Many { n, prefix } => {
+                let wr = w.as_mut().unwrap();
+                let o = Opts::default().to_file_options();
+                let mut r = Res::Ok(0);
+                for i in 0..*n {
+                    if let Err(e) = wr.start_file(format!("{prefix}{i}"), o) {
+                        r = Res::Err(zerr(&e));
+                        break;
+                    }
+                    accepted += 1;
+                }
+                r
             }
             Op::Flush => match w.as_mut().unwrap().flush() {
                 Ok(()) => Res::Ok(0),
@@ -635,6 +651,12 @@ fn shrink_op(op: &Op) -> Vec<Op> {
             if !c.0.is_empty() {
                 v.push(Op::SetComment { c: Hex(vec![]) });
                 v.push(Op::SetComment { c: Hex(c.0[..c.0.len() / 2].to_vec()) });
+            }
+        }
+        Op::Many { n, prefix } => {
+            if *n > 1 {
+                v.push(Op::Many { n: n / 2, prefix: prefix.clone() });
+                v.push(Op::Many { n: n - 1, prefix: prefix.clone() });
             }
         }
         Op::RawCopy { src, how, index, rename } => {
